@@ -9,17 +9,19 @@ import PqModel.SortCmp
         typed path (`broadcastValueInt32`) · `v:<x;y;…>` a run of values · `s:<i>:<j>` Swap ·
         `l:<i>:<j>` Less (one result bit each, in order) · `p` Page()
 
-The definitions below select the mirror of the library *as it currently is*. -/
+The definitions below select the mirror of the library *as it currently is* (after the repairs
+F13/F14/F24; the as-found transliterations `bcastAsmF14`, `OptCol.pageF24`, `Col.lessF13` stay in the
+model for the negation witnesses of `Props/C10.lean`). -/
 namespace Driver.Ops.C10
 open Driver PqModel.SortBuf
 
 /-- mirror of `broadcastRangeInt32` in the assembly build -/
-def asmKernel : BitVec 32 → Nat → List (BitVec 32) := bcastAsmF14
+def asmKernel : BitVec 32 → Nat → List (BitVec 32) := bcastAsm
 /-- mirror of `optionalColumnBuffer.Page` -/
-def pageCur (m : Nat) (c : OptCol Int) : OptCol Int := c.pageF24 m
+def pageCur (m : Nat) (c : OptCol Int) : OptCol Int := c.page m
 /-- mirror of the `Less` of a sorting column as `Buffer.configure` sets it up -/
 def lessCur (desc nullsFirst : Bool) (c : Col Int) (i j : Nat) : Bool :=
-  Col.lessF13 (fun a b => decide (a < b)) desc nullsFirst c i j
+  Col.less (fun a b => decide (a < b)) desc nullsFirst c i j
 
 def kernelFn (variant : String) : Option (BitVec 32 → Nat → List (BitVec 32)) :=
   if variant == "asm" then some asmKernel
